@@ -384,6 +384,7 @@ pub fn run_faults(rep: &mut Report, label: &str, histories: Vec<History>, classe
                     let shm = Shm::new(1 << 4, 1 << 16);
                     let pid = unsafe { libc::fork() };
                     if pid == 0 {
+                        crate::watchdog::arm();
                         let (r, o) = one_injection(h, Some(inj), classes);
                         let c = match (r.and_then(|r| r.violation), o) {
                             // same precedence as fault_job: an oracle violation wins
